@@ -125,10 +125,10 @@ def deep_labels(t):
 
 def big_shapes(rng, tier, max_nodes=None):
     """a few large shapes per run: stars, chains, brooms, two-level fans, a bushy random tree; sizes straddle the usual
-    cut-offs (16, 32, 64, 128, 256). quick: one size per kind drawn at random + the 33/65 classics; thorough: all."""
+    cut-offs (16, 32, 64, 128, 256 - CPython caches the ints up to 256, so `is` on counters breaks at 257). quick: 33, 260 and one more size per kind; thorough: all."""
     out = []
-    widths = list(BIG_WIDTHS) if tier != "quick" else sorted({33, rng.choice(BIG_WIDTHS), rng.choice(BIG_WIDTHS[2:])})
-    depths = list(BIG_DEPTHS) if tier != "quick" else sorted({33, rng.choice(BIG_DEPTHS), rng.choice(BIG_DEPTHS[2:])})
+    widths = list(BIG_WIDTHS) if tier != "quick" else sorted({33, 260, rng.choice(BIG_WIDTHS[:4])})
+    depths = list(BIG_DEPTHS) if tier != "quick" else sorted({33, 260, rng.choice(BIG_DEPTHS[:4])})
     for w in widths:
         out.append([[] for _ in range(w)])                                   # star
         out.append([[[] for _ in range(3)] if i % 5 == 0 else [] for i in range(w)])   # wide fan with some grandchildren
